@@ -84,7 +84,7 @@ func init() {
 		MinNontriv: 50,
 		Cases: func(tier string) int {
 			if tier == "thorough" {
-				return 60000
+				return 600000
 			}
 			return 4000
 		},
